@@ -7,6 +7,7 @@ import (
 	"testing"
 
 	biscuit "github.com/biscuit-auth/biscuit-go/v2"
+	"github.com/biscuit-auth/biscuit-go/v2/datalog"
 	"pgregory.net/rapid"
 
 	"verif/internal/bridge"
@@ -23,6 +24,7 @@ import (
 type C07Case struct {
 	Spec    TokSpec   `json:"spec"`
 	Panel   []m.Authz `json:"panel"`
+	Other   TokSpec   `json:"other"` // a second, unrelated token (decoded by the same Unmarshaler first)
 	Gate    string    `json:"gate"` // version declared by one block of a wire-built token: absent | 0 | 2 | 3 | 4 | max
 	GatePos int       `json:"gate_pos"`
 }
@@ -214,6 +216,39 @@ func checkC07(c C07Case, rec *obs.Recorder) *obs.Violation {
 	if tok.GetContext() != re.GetContext() || re.GetContext() != c.Spec.Blocks[0].Context {
 		return obs.Violf("token %s: context %q / %q", desc, tok.GetContext(), re.GetContext())
 	}
+	// one Unmarshaler value used for several tokens decodes each as if it were the only one
+	if len(c.Other.Blocks) > 0 {
+		other, _, _, err := c.Other.build()
+		if err != nil {
+			return obs.Violf("cannot build the second token: %v", err)
+		}
+		oser, err := other.Serialize()
+		if err != nil {
+			return obs.Violf("serialize second token: %v", err)
+		}
+		st := datalog.SymbolTable{}
+		u := &biscuit.Unmarshaler{Symbols: &st}
+		if _, err := u.Unmarshal(oser); err != nil {
+			return obs.Violf("Unmarshaler rejects a token produced by the library: %v", err)
+		}
+		again, err := u.Unmarshal(ser)
+		if err != nil {
+			return obs.Violf("token %s: the same Unmarshaler, after decoding another token, rejects it: %v", desc, err)
+		}
+		if len(st) != 0 {
+			return obs.ViolK("unmarshaler-reuse", "token %s: Unmarshaler.Unmarshal modified the caller's base symbol table: %q", desc, []string(st))
+		}
+		if a, b := again.String(), re.String(); a != b {
+			return obs.ViolK("unmarshaler-reuse", "token %s: decoded by an Unmarshaler that had decoded %s before, it reads\n%s\ninstead of\n%s", desc, m.Token{Blocks: c.Other.Blocks}.Text(), a, b)
+		}
+		for _, az := range c.Panel {
+			o1, _, e1 := authorizeOnce(re, pub, az, nil)
+			o2, _, e2 := authorizeOnce(again, pub, az, nil)
+			if (e1 == nil) != (e2 == nil) || o1.Class != o2.Class {
+				return obs.ViolK("unmarshaler-reuse", "token %s: outcome %s when decoded alone, %s when decoded by a reused Unmarshaler", desc, o1, o2)
+			}
+		}
+	}
 	for i, az := range c.Panel {
 		o1, _, e1 := authorizeOnce(tok, pub, az, nil)
 		o2, _, e2 := authorizeOnce(re, pub, az, nil)
@@ -364,6 +399,10 @@ func drawC07(t *rapid.T) C07Case {
 		az.Checks = s.DrawChecks(t, closure, 0, 1, gen.CheckCfg{PSat: 80, MaxQueries: 2})
 		az.Policies = []m.Policy{s.DrawPolicy(t, closure, 70), {Allow: rapid.Bool().Draw(t, "fallback"), Queries: []m.Rule{{Head: m.Pred{Name: "policy"}}}}}
 		c.Panel = append(c.Panel, az)
+	}
+	c.Other = TokSpec{RootSeed: c.Spec.RootSeed + 1, RngKey: c.Spec.RngKey + 1, Blocks: []m.Block{drawRichBlock(t, s)}}
+	if rapid.Bool().Draw(t, "other.later") {
+		c.Other.Blocks = append(c.Other.Blocks, drawRichBlock(t, s))
 	}
 	c.Gate = rapid.SampledFrom([]string{"3", "3", "absent", "0", "1", "2", "4", "max"}).Draw(t, "gate")
 	c.GatePos = rapid.IntRange(0, 3).Draw(t, "gatepos")
